@@ -7,6 +7,7 @@ from engine.tlc import MachineryError
 
 MUTANTS = [("MUT_Lifecycle_shared_table.cfg", "OverridesRestored"), ("MUT_Lifecycle_backup_always.cfg", "OverridesRestored"),
            ("MUT_Lifecycle_restore_none_deletes.cfg", "OverridesRestored"), ("MUT_Lifecycle_pin_inherited.cfg", "OverridesRestored"),
+           ("MUT_Lifecycle_register_first_backup_only.cfg", "OverridesRestored"),
            ("MUT_Lifecycle_error_active.cfg", "RightList"), ("MUT_Lifecycle_swallow.cfg", "RaisesToCaller")]
 
 
@@ -24,7 +25,7 @@ def run(prop, tier, seed, ctx):
                        "contextualize/set_formatter calls) exported by TLC at the depth bound, replayed step by step "
                        "with the projected state compared after every call; non-trivial = contains an override, a "
                        "raising outcome or a delayed condition; distinct = distinct action sequence")
-    cfgs = ["MC_Lifecycle_q.cfg", "MC_Lifecycle_none_q.cfg", "MC_Lifecycle_inherit_q.cfg", "MC_Lifecycle_fmt_q.cfg"] if tier == "quick" else ["MC_Lifecycle_q.cfg", "MC_Lifecycle_none_q.cfg", "MC_Lifecycle_inherit_q.cfg", "MC_Lifecycle_fmt_q.cfg", "MC_Lifecycle_t.cfg"]
+    cfgs = ["MC_Lifecycle_q.cfg", "MC_Lifecycle_none_q.cfg", "MC_Lifecycle_inherit_q.cfg", "MC_Lifecycle_fmt_q.cfg", "MC_Lifecycle_two_q.cfg"] if tier == "quick" else ["MC_Lifecycle_q.cfg", "MC_Lifecycle_none_q.cfg", "MC_Lifecycle_inherit_q.cfg", "MC_Lifecycle_fmt_q.cfg", "MC_Lifecycle_two_q.cfg", "MC_Lifecycle_t.cfg"]
     for cfg in cfgs:
         res = tlc.run("Lifecycle", cfg, workers=8, timeout=1800)
         tlc.require_ok(res, cfg)
@@ -60,7 +61,7 @@ def run(prop, tier, seed, ctx):
     for m in mism:
         ctx.violation(key_of(m), "simulated behaviour, after step %d (%s) the real state differs from the specification in %s" % (
             m["step"], m["action"]["op"], m["fields"]), m)
-    for mcfg, inv in (MUTANTS if tier == "thorough" else MUTANTS[:4]):
+    for mcfg, inv in (MUTANTS if tier == "thorough" else MUTANTS[:5]):
         mres = tlc.run("Lifecycle", mcfg, workers=8, timeout=600)
         if inv not in mres.violated:
             raise MachineryError("mutant %s did not violate %s" % (mcfg, inv))
